@@ -162,7 +162,7 @@ PROPS = {
         ],
         "not_decided": [
             "the algebraic laws (done is a unit for then/and, all of one command equals it, identity mapping, order-insensitivity) and observable equality with a reference semantics: trace equalities over programs x schedules, not per-call contracts",
-            "the builder chains of command/builder.rs: then_send (both builders), map and then_request (both), StreamBuilder::then_stream are lifted and proved relative to ASSUMED contracts that name the documented semantics of each futures adapter (StreamExt::then / map / buffer_unordered / flatten_unordered(limit) / flat_map, FutureExt::map / then); RequestBuilder::then_stream is not extracted; that the names fit futures 0.3 is an assumption",
+            "the builder chains of command/builder.rs: then_send (both builders), map and then_request (both), then_stream (both) are lifted and proved relative to ASSUMED contracts that name the documented semantics of each futures adapter (StreamExt::then / map / buffer_unordered / flatten_unordered(limit) / flat_map, FutureExt::map / then); that the names fit futures 0.3 is an assumption",
             "and/all run their parts CONCURRENTLY and finish when all have: decided only as 'each part is hosted by its own task' (unit Q, reported under C01/C06 too)",
         ],
     },
